@@ -697,6 +697,9 @@ pub(crate) fn run_c07(replay: Option<&str>) -> Report {
 
 const FAR: u64 = 1 << 40;
 
+/// every (is-hold-timer, value) the FSM emitted during the exploration; bound to the driver afterwards
+static TIMER_VALUES: std::sync::Mutex<std::collections::BTreeSet<(bool, u64)>> = std::sync::Mutex::new(std::collections::BTreeSet::new());
+
 #[derive(Clone, Debug)]
 enum TOp {
     Connected,
@@ -746,11 +749,16 @@ impl TimeModel {
         let mut hold_down = false;
         let mut any_down = false;
         let mut ka_sent = 0;
+        let mut seen: Vec<(bool, u64)> = Vec::new();
         for o in outs {
             if let PeerFsmOutput::Connection(_, out) = o {
                 match out {
-                    Output::SetHoldTimer(n) => sys.hold = if n >= FAR { None } else { Some(sys.now + n) },
+                    Output::SetHoldTimer(n) => {
+                        seen.push((true, n));
+                        sys.hold = if n >= FAR { None } else { Some(sys.now + n) }
+                    }
                     Output::SetKeepaliveTimer(n) => {
+                        seen.push((false, n));
                         sys.ka = if n >= FAR { None } else { Some(sys.now + n) };
                         sys.last_tx = sys.now;
                     }
@@ -767,6 +775,12 @@ impl TimeModel {
         }
         if any_down {
             sys.down = true;
+        }
+        if !seen.is_empty() {
+            let mut g = TIMER_VALUES.lock().unwrap();
+            if seen.iter().any(|v| !g.contains(v)) {
+                g.extend(seen);
+            }
         }
         (hold_down, any_down, ka_sent)
     }
@@ -1142,6 +1156,14 @@ fn c08_conformance_once(rep: &mut Report, full: bool) -> u64 {
 pub(crate) fn run_c08(replay: Option<&str>) -> Report {
     let mut rep = Report::new("C08", "hd-c08");
     let models = c08_models();
+    if let Some(c) = replay.filter(|c| c.starts_with("binding#")) {
+        let mut it = c.split('#').skip(1);
+        let hold = it.next() == Some("hold");
+        let v: u64 = it.next().and_then(|x| x.parse().ok()).unwrap_or(0);
+        TIMER_VALUES.lock().unwrap().insert((hold, v));
+        c08_driver_binding(&mut rep);
+        return rep;
+    }
     if replay.is_some_and(|c| c.starts_with("conformance#")) {
         c08_conformance(&mut rep, true);
         return rep;
@@ -1168,6 +1190,45 @@ pub(crate) fn run_c08(replay: Option<&str>) -> Report {
         bfs::bfs(m, &cfg, &mut rep);
     }
     let thorough = rep.thorough();
+    c08_driver_binding(&mut rep);
     c08_conformance(&mut rep, thorough);
     rep
+}
+
+/// Bind TimeModel::interpret to PeerSession::apply_outputs: every timer value the FSM emitted
+/// during the exploration is armed through the real driver and the pending sleep is read back.
+fn c08_driver_binding(rep: &mut Report) {
+    let values: Vec<(bool, u64)> = TIMER_VALUES.lock().unwrap().iter().copied().collect();
+    if values.is_empty() {
+        rep.machinery_error = Some("c08 driver binding: the exploration recorded no timer output".into());
+        return;
+    }
+    let res = match crate::event::verif_event::c08::driver_timer_interpretation(&values) {
+        Ok(r) => r,
+        Err(e) => {
+            rep.machinery_error = Some(format!("c08 driver binding: {e}"));
+            return;
+        }
+    };
+    let never = crate::event::verif_event::c08::NEVER_SECS;
+    for a in &res {
+        let kind = if a.hold { "hold" } else { "keepalive" };
+        let case = format!("binding#{}#{}", kind, a.value);
+        rep.traces_validated += 1;
+        rep.evaluations += 1;
+        if a.pending != 1 {
+            rep.violation(Violation { sig: format!("C08/driver-binding/{kind}/not-replaced"), what: format!("Set{kind}Timer({}) left {} pending sleeps of that kind; the model (and the property) assume exactly one", a.value, a.pending), case: case.clone() });
+        }
+        if !a.other_untouched {
+            rep.violation(Violation { sig: format!("C08/driver-binding/{kind}/disturbs-other-timer"), what: format!("Set{kind}Timer({}) changed the other timer", a.value), case: case.clone() });
+        }
+        if a.value >= FAR {
+            if a.secs < never {
+                rep.violation(Violation { sig: format!("C08/driver-binding/{kind}/disabled-timer-armed"), what: format!("the FSM's 'timer disabled' value {} was armed by the driver as a real timer firing in {} s: the session would die of it although a zero hold time was negotiated", a.value, a.secs), case });
+            }
+        } else if !(a.value.saturating_sub(2)..=a.value).contains(&a.secs) {
+            rep.violation(Violation { sig: format!("C08/driver-binding/{kind}/wrong-deadline"), what: format!("Set{kind}Timer({}) was armed by the driver to fire in {} s", a.value, a.secs), case });
+        }
+    }
+    rep.notes.push(format!("c08-driver-binding: {} distinct timer outputs emitted by the FSM during the exploration ({}) armed through the real PeerSession::apply_outputs; pending sleep count, deadline and the untouched other timer read back", res.len(), values.iter().map(|(h, v)| format!("{}:{}", if *h { "hold" } else { "ka" }, if *v >= FAR { "disabled".to_string() } else { v.to_string() })).collect::<Vec<_>>().join(" ")));
 }
